@@ -115,9 +115,9 @@ def run(ctx):
     reb = [st for st in U.walk_stmts(fi.node) for (tgt, _v, _o) in U.store_targets(st) if isinstance(tgt, ast.Name) and tgt.id == prm and
            not (isinstance(st, ast.Assign) and isinstance(st.value, ast.Call) and dotted(st.value.func) in ('np.asarray', 'np.asanyarray', 'numpy.asarray') and
                 len(st.value.args) == 1 and norm_text(st.value.args[0]) == prm)]
-    ret = fi.node.body[-1]
-    rv = U.expand_locals(fi.node, ret.value, fi.module.assigns) if isinstance(ret, ast.Return) and ret.value is not None else None
-    uses = rv is not None and any(isinstance(n, ast.Name) and n.id == prm for n in ast.walk(rv))
+    rets = [r_ for r_ in ast.walk(fi.node) if isinstance(r_, ast.Return) and r_.value is not None]
+    ret = rets[-1] if rets else fi.node.body[-1]
+    uses = any(isinstance(n, ast.Name) and n.id == prm for r_ in rets for n in ast.walk(U.expand_locals(fi.node, r_.value, fi.module.assigns)))
     ok = not reb and uses
     ctx.ob('SCALE/operand-is-input', fi, reb[0] if reb else ret, ok, 'the samples that are scaled are the input array, unmodified' if ok else
            '%s %s before scaling: some sample values no longer round-trip' % (fi.name, 'rebinds its input (%s)' % norm_text(reb[0]) if reb else 'does not scale its input'),
